@@ -67,7 +67,7 @@ func init() {
 			"quick":    "one inductive step per piece of hidden state from an arbitrary valid pre-state: pooled request with arbitrary contents (hostnames of 1..4 symbolic bytes); rule cache with any subset of 6 indexes of a concrete list already materialised; lazily compiled pattern warm vs cold for every 1-token mask pattern and 1-atom regular expression plus an invalid one, URLs of 3 and 6 symbolic bytes; verdict evaluation on k<=2 request and s<=1 referrer symbolic rules with spare capacity in the caller's slices; network engine queried before and after another query (1..2 rules, URLs of 5..6 bytes); DNSResult getters asked twice on 1..3 symbolic rewrite rules",
 			"thorough": "verdict evaluation with k<=3",
 		},
-		Outside:     []string{"query histories longer than the inductive step (covered by the invariants, not enumerated)", "state not listed in the property's anchors", "the cosmetic engine (stateless after construction; C15)"},
+		Outside:     []string{"query histories longer than the inductive step (covered by the invariants, not enumerated)", "state not listed in the property's anchors", "the cosmetic engine: its history independence is decided in C15 (warm variant: a query after another query, the earlier result overwritten by the caller)"},
 		Assumptions: []string{"representation invariants: cache[i] = parse(list, i); regex != nil => compiled from the pattern; invalid => compilation fails (established by the only writers, which the steps execute)"},
 		Rule:        "pre-states are symbolic (which entries are cached, what the pooled object contains); one state per feasible path",
 	})
